@@ -35,6 +35,34 @@ class FaultSolver(pulp.LpSolver):
                 v.varValue = (1 if v.name.endswith("_0") else 0) if beh.endswith("level0") else 0
             lp.assignStatus(pulp.LpStatusOptimal)
             return pulp.LpStatusOptimal
+        if self.garbage == "proper":
+            # a solver that stopped early with a PROPER but arbitrary assignment behind it (an incumbent): conflicts are read off the two-variable
+            # constraints x_i_o + x_j_o <= 1, regions are coloured greedily from the LAST one backwards (first-come-first-served goes forwards)
+            import collections
+            import re
+
+            nb = collections.defaultdict(set)
+            regions, levels = set(), set()
+            for v in lp.variables():
+                m = re.fullmatch(r"x_(\d+)_(\d+)", v.name)
+                if m:
+                    regions.add(int(m.group(1)))
+                    levels.add(int(m.group(2)))
+            for c in lp.constraints.values():
+                vs = [re.fullmatch(r"x_(\d+)_(\d+)", v.name) for v in c.keys()]
+                if len(vs) == 2 and all(vs) and vs[0].group(2) == vs[1].group(2):
+                    a, b = int(vs[0].group(1)), int(vs[1].group(1))
+                    nb[a].add(b)
+                    nb[b].add(a)
+            colour = {}
+            for r in sorted(regions, reverse=True):
+                colour[r] = next(l for l in sorted(levels) if all(colour.get(x) != l for x in nb[r]))
+            for v in lp.variables():
+                m = re.fullmatch(r"x_(\d+)_(\d+)", v.name)
+                if m:
+                    v.varValue = 1 if colour[int(m.group(1))] == int(m.group(2)) else 0
+            lp.assignStatus(STATUS[beh])
+            return STATUS[beh]
         if self.garbage:
             # a solver that stopped early may leave arbitrary values behind: put every region on level 0
             for v in lp.variables():
